@@ -375,13 +375,13 @@ def run(ctx):
     else:
         s = ctx.seed * 1000
         plan = [("t1", s + 1, "inproc", "mem", 60, 8, 80, "-lossdur 1500ms -stalebarrier 5s"),
-                ("t0", s + 8, "inproc", "mem", 40, 10, 2, "-snapcount 20 -nemkind restarts -mix nonidem -pace 1ms -racedur 0s -pairdur 0s"),
-                ("t8", s + 9, "procs", "pebble", 60, 6, 2, "-snapcount 50 -racedur 0s -pairdur 0s"),
-                ("t2", s + 2, "procs", "pebble", 130, 6, 40),
-                ("t3", s + 3, "procs", "rocksdb", 130, 8, 40),
-                ("t4", s + 4, "procs", "pebble", 130, 4, 40),
-                ("t5", s + 5, "inproc", "pebble", 90, 8, 40),
-                ("t6", s + 6, "procs", "mem", 120, 6, 40),
+                ("t0", s + 8, "inproc", "mem", 30, 10, 2, "-snapcount 20 -nemkind restarts -mix nonidem -pace 1ms -racedur 0s -pairdur 0s"),
+                ("t8", s + 9, "procs", "pebble", 45, 6, 2, "-snapcount 50 -racedur 0s -pairdur 0s"),
+                ("t2", s + 2, "procs", "pebble", 100, 6, 40),
+                ("t3", s + 3, "procs", "rocksdb", 100, 8, 40),
+                ("t4", s + 4, "procs", "pebble", 100, 4, 40),
+                ("t5", s + 5, "inproc", "pebble", 70, 8, 40),
+                ("t6", s + 6, "procs", "mem", 90, 6, 40),
                 # long per-key histories (150-200 operations each): only the memoised checker can judge them
                 ("t7", s + 7, "inproc", "mem", 50, 8, 10, "-minb 150 -maxb 200 -maxunk 8 -pace 2ms -racedur 0s -pairdur 0s")]
 
